@@ -46,6 +46,15 @@ fn programs() -> Vec<Program> {
       ],
     },
     P {
+      name: "rejected: an error located in one module is found again while checking its importers (indirect super type)",
+      entry: "Main",
+      modules: vec![
+        ("B", "class D {}\ninterface I : D {}\nclass K { function f(): int = \"s\"  function g(): Str = 1 }\n"),
+        ("A", "import { I } from B\nclass C : I {}\nclass C2 : I { function h(): int = true }\n"),
+        ("Main", "import { C } from A\nimport { I, K } from B\nclass M2 : I {}\nclass Main { function main(): unit = { let _: int = K.g(); } }\n"),
+      ],
+    },
+    P {
       name: "accepted: same class names in different modules, mutual imports",
       entry: "Main",
       modules: vec![
